@@ -8,6 +8,13 @@ Streams
                 state machine (Model/Caches via Drivers/C08): item replaced <=> text changed, item
                 ordinal, the cache node every lookup is keyed on, hit/miss of every distinct lookup,
                 key set of the derived cache after a collection.
+  tree-source   where the Script's tree comes from: a probe on parso's Grammar.parse records every
+                question put to parso while a Script is constructed and parso's answer; the Script
+                must ask exactly once, hold the node parso returned, and that node's content must be
+                the from-scratch parse (model: obtainTree = parseBuffer, `asked` of every script step
+                compared with the driver).  The premise of the property (parso's promise) is judged
+                on parso's own answers, so a step in which jedi does not use parso's answer (a
+                remembered node) is judged by the oracle, not excused.
   derived-value every probed lookup result vs its uncached computation on a from-scratch parse of
                 the current text (python side only)
   sig-cache     entries of _time_caches['call_signatures_validity'] never hit (model: fresh key)
@@ -30,17 +37,23 @@ LEAN_TARGETS = ['JediModel.Props.C08', 'JediModel.Drivers.C08']
 MANIFEST = dict(
     text='Lean state machine of one process (parser-cache items with generation numbers, module nodes '
          'mutated in place by the diff parser, the two derived caches keyed weakly on the item, the '
-         'per-Script memo, the signature time cache with a logical clock). Proved for ALL histories and '
+         'per-Script memo, the signature time cache with a logical clock, and where Script.__init__ takes '
+         'its tree from: obtainTree/remembered with the decision treeMemo read from the source). Proved for ALL histories and '
          'all queries routed through these caches: the invariant (entries under a live item equal the '
          'direct computation; the item under the newest Script carries the current text), history '
          'independence (answer = query evaluated on a from-scratch parse = answer of a fresh process), '
-         'no internal error; kernel-checked witnesses that keying on the tree / a comparable signature '
+         'no internal error, the tree of every Script is parso\'s answer for this construction '
+         '(script_tree_from_parser), returning to an earlier text at any distance is answered like a fresh '
+         'process (undo_redo_independent_partial); kernel-checked witnesses that a table of remembered '
+         'module nodes (stale_if_script_remembers_trees), keying on the tree / a comparable signature '
          'key / a shared memo / cache=True for the buffer each break it. The design decisions are read '
          'from the source by the translator (Gen.C08.cfg) and the theorems are stated over them. Tie: '
-         'probed correspondence of the real cache state against the model on generated edit histories, '
+         'probed correspondence of the real cache state against the model on generated edit histories '
+         '(half of them revisit-rich: undo/redo along an undo stack, revert to any earlier version, toggling), '
+         'a probe on parso\'s Grammar.parse for the source of every Script\'s tree (stream tree-source), '
          'plus the direct oracle (history process vs empty-cache process vs brand-new interpreter).',
     note='Modelled not verified: parso diff parser == from-scratch parse (the property\'s premise; checked '
-         'per step, steps where it fails are counted and not judged), what a lookup computes on a tree, '
+         'per step on parso\'s own answers, steps where it fails are counted and not judged), what a lookup computes on a tree, '
          'CPython weakref/gc timing. The 10-minute environment cache is not exercised.',
     technique='Lean 4 proof over hand-written state machine + translator-extracted design decisions + '
               'probed differential correspondence + fresh-process oracle',
@@ -792,10 +805,9 @@ def _run(ctx):
                                       'lines_ok': rec.get('lines_ok'), 'node_ok': rec.get('node_ok')}))
             # the source of the Script's tree (model: obtainTree = parseBuffer, one question to parso
             # per construction, its answer is the Script's module node)
-            ctx.count('tree-source', (h['hid'], si), nontrivial=si > 0 and h['texts'][si] in h['texts'][:si]
-                      and h['texts'][si] != h['texts'][si - 1],
-                      bucket='%s/%s' % (h['mode'], 'revisit' if h['texts'][si] in h['texts'][:si - 1]
-                                        and h['texts'][si] != h['texts'][si - 1] else
+            revisit = si > 0 and h['texts'][si] in h['texts'][:si] and h['texts'][si] != h['texts'][si - 1]
+            ctx.count('tree-source', (h['hid'], si), nontrivial=revisit,
+                      bucket='%s/%s' % (h['mode'], 'revisit' if revisit else
                                         'same' if si and h['texts'][si] == h['texts'][si - 1] else 'new-text'))
             if rec.get('asked') != 1 or not rec.get('tree_from_parso') or not rec.get('tree_ok'):
                 ctx.tie_broken('correspondence:tree-source',
@@ -841,7 +853,7 @@ def _run(ctx):
                                                              'history': bad[0][1], 'fresh': bad[0][2]}, 900))
     ctx.obligations['assumptions'] = [
         'parso diff parser result == from-scratch parse (premise of the property; checked per step by a '
-        'tree dump comparison, failing steps are counted in stream `premise` and not judged)',
+        'tree dump comparison of every answer parso gives while the Script is constructed, failing steps are counted in stream `premise` and not judged)',
         '`parse` and `compute` are parameters of the model: what a lookup computes on a tree is not modelled; '
         'stream derived-value compares every probed lookup with its uncached computation on a fresh parse',
         'weak dictionaries: an entry disappears when its item is collected (model op `gc`; harness calls '
